@@ -503,6 +503,9 @@ def extract_env_renderers(repo: str) -> dict:
     else:
         out["bsc_wrap"] = normalise([lit(p.value) if isinstance(p, ast.Constant) else ("shq", "inner") for p in wrap.values])
         out["bsc_sep"] = q.value.args[0].func.value.value
+    plain = [n for n in _fstrings(fn, " 2>&1") if n is not wrap]
+    out["bsc_plain"] = normalise(_one(ev(_one(plain, "_build_shell_command: f-string of the plain command"), Env({}, {}, [], "path")),
+                                      "plain")[1])
     frame = _one(_fstrings(fn, "echo "), "_build_shell_command: f-string with `echo `")
     out["bsc_frame"] = normalise(_one(ev(frame, Env({}, {}, [], "path")), "frame")[1])
     # order of the parts: cd, then exports, then the command
@@ -634,7 +637,7 @@ def generate(repo: str) -> tuple[str, str]:
     lines.append("")
     lines.append("/-- every extracted template that renders a path, directory or environment value (the framing / wrapping templates,")
     lines.append("    whose arguments are command texts by design, are left out) -/")
-    lines.append(f"def allTemplates : List Template := [{', '.join(n for n in all_names if n not in ('bsc_frame', 'bsc_wrap'))}]")
+    lines.append(f"def allTemplates : List Template := [{', '.join(n for n in all_names if n not in ('bsc_frame', 'bsc_wrap', 'bsc_plain'))}]")
     lines.append("")
     lines.append("end SFV.Gen.Cmd")
     return TARGET, "\n".join(lines) + "\n"
